@@ -161,7 +161,7 @@ def build():
                    'final(connections).len() == old(connections).len()', 'route_wf(final(connections)@)',
                    C('C01+C04.route.probes.only_stall_gated_connected_links_other_than_the_selected_one', '''forall|j: int| 0 <= j < old(connections).len() && (j == sel_idx || !old(connections)[j].stall_gated || !old(connections)[j].connected)
             ==> #[trigger] final(connections)[j] == old(connections)[j]'''),
-                   C('C01.route.probes.at_most_one_identical_copy_per_100_routed_packets', '''forall|j: int| 0 <= j < old(connections).len() && j != sel_idx && old(connections)[j].stall_gated && old(connections)[j].connected ==> ({
+                   C('C01+C02.route.probes.at_most_one_identical_copy_per_100_routed_packets_with_its_sequence_number', '''forall|j: int| 0 <= j < old(connections).len() && j != sel_idx && old(connections)[j].stall_gated && old(connections)[j].connected ==> ({
                 let o = &old(connections)[j]; let n = &#[trigger] final(connections)[j];
                 if o.stall_probe_counter + 1 >= 100 {
                     // the 100th routed packet since the last probe: one identical copy queued (or the batch flushed)
@@ -178,7 +178,7 @@ def build():
                                    'forall|j: int| i_nx <= j < connections.len() ==> #[trigger] connections[j] == old(connections)[j]',
                                    C('C01+C04.route.probes.only_stall_gated_connected_links_other_than_the_selected_one', '''forall|j: int| 0 <= j < i_nx && (j == sel_idx || !old(connections)[j].stall_gated || !old(connections)[j].connected)
                 ==> #[trigger] connections[j] == old(connections)[j]'''),
-                                   C('C01.route.probes.at_most_one_identical_copy_per_100_routed_packets', '''forall|j: int| 0 <= j < i_nx && j != sel_idx && old(connections)[j].stall_gated && old(connections)[j].connected ==> ({
+                                   C('C01+C02.route.probes.at_most_one_identical_copy_per_100_routed_packets_with_its_sequence_number', '''forall|j: int| 0 <= j < i_nx && j != sel_idx && old(connections)[j].stall_gated && old(connections)[j].connected ==> ({
                     let o = &old(connections)[j]; let n = &#[trigger] connections[j];
                     if o.stall_probe_counter + 1 >= 100 {
                         (n.batch_sender.queue.len() == o.batch_sender.queue.len() + 1 && n.batch_sender.view_at(o.batch_sender.queue.len() as int) == (pkt@, seq, packet_time_ms) && n.stall_probe_counter == 0)
